@@ -313,6 +313,7 @@ static void exec_op(RunState &rs, int i) {
 
 	seam::OpCtx ctx;
 	ctx.task = task; ctx.op_index = i; ctx.op_name = kind_name(o.kind); ctx.heap_policy = o.heap; ctx.faults = o.fault; ctx.pfaults = o.pfault;
+	if (o.preempt && rs.in_concurrent) { ctx.preempt_after = o.preempt; ctx.preempt_at = o.preempt_at; }
 	bool skipped = false;
 	t_cur_ctx = &ctx;
 	auto need = [&](bool ok) { if (!ok) skipped = true; return ok; };
@@ -544,6 +545,7 @@ static void exec_op(RunState &rs, int i) {
 	case MAPS_AUDIT: seam::maps_audit(i); res.executed = true; break;
 	default: break;
 	}
+	if (ctx.preempt_after) rs.rep->probes[ctx.preempted ? "preempted_inside_call" : "preempt_not_reached"]++;
 	if (ctx.pfired) { rs.pfault_fired = true; rs.rep->probes["mprotect_refused"] += (uint64_t)ctx.pfired; }
 	if (ctx.sigactions) {
 		rs.rep->probes["sigaction_calls"] += (uint64_t)ctx.sigactions;
@@ -687,6 +689,7 @@ Report execute(const Plan &plan_in, const Options &opt) {
 	rep.seams = seam::stats();
 	rep.sched = rt::sched_stats();
 	rep.fingerprint = rt::g_log.fp;
+	rep.sem_fingerprint = rt::g_log.sem;
 	rep.events = rt::g_log.count;
 	if (opt.trace) rep.trace = rt::g_log.lines;
 	seam::run_end();
@@ -697,9 +700,9 @@ Report execute(const Plan &plan_in, const Options &opt) {
 
 std::string report_to_json(const Report &r, const Plan &plan, bool with_plan) {
 	std::string s;
-	char b[256];
-	snprintf(b, sizeof b, "{\"type\":\"run\",\"run\":%llu,\"seed\":%llu,\"fp\":\"%016llx\",\"events\":%llu,\"ops\":%d,\"nops\":%zu,\"tasks\":%d,\"invalid\":%s",
-	         (unsigned long long)g_run_index, (unsigned long long)plan.seed, (unsigned long long)r.fingerprint, (unsigned long long)r.events, r.ops_executed, plan.ops.size(), r.max_tasks, r.invalid ? "true" : "false");
+	char b[640];
+	snprintf(b, sizeof b, "{\"type\":\"run\",\"run\":%llu,\"seed\":%llu,\"fp\":\"%016llx\",\"sfp\":\"%016llx\",\"events\":%llu,\"ops\":%d,\"nops\":%zu,\"tasks\":%d,\"invalid\":%s",
+	         (unsigned long long)g_run_index, (unsigned long long)plan.seed, (unsigned long long)r.fingerprint, (unsigned long long)r.sem_fingerprint, (unsigned long long)r.events, r.ops_executed, plan.ops.size(), r.max_tasks, r.invalid ? "true" : "false");
 	s += b;
 	if (r.invalid) s += ",\"invalid_reason\":\"" + rt::json_escape(r.invalid_reason) + "\"";
 	snprintf(b, sizeof b, ",\"steps\":%llu,\"switches\":%llu,\"yields\":%llu,\"ilv\":\"%016llx\",\"shape\":\"%016llx\"", (unsigned long long)r.sched.steps, (unsigned long long)r.sched.switches,
@@ -709,9 +712,9 @@ std::string report_to_json(const Report &r, const Plan &plan, bool with_plan) {
 	snprintf(b, sizeof b, ",\"req\":[%llu,%llu,%llu,%llu],\"fired\":[%llu,%llu,%llu,%llu]", (unsigned long long)st.requests[0], (unsigned long long)st.requests[1], (unsigned long long)st.requests[2], (unsigned long long)st.requests[3],
 	         (unsigned long long)st.fired[0], (unsigned long long)st.fired[1], (unsigned long long)st.fired[2], (unsigned long long)st.fired[3]);
 	s += b;
-	snprintf(b, sizeof b, ",\"seam\":{\"frees\":%llu,\"munmaps\":%llu,\"mprotects\":%llu,\"reuse_big\":%llu,\"reuse_small\":%llu,\"reuse_tiny\":%llu,\"fresh_big\":%llu,\"fresh_small\":%llu,\"stale\":%llu,\"rw_rx\":%llu,\"rwx_plain\":%llu,\"audits\":%llu}",
+	snprintf(b, sizeof b, ",\"seam\":{\"frees\":%llu,\"munmaps\":%llu,\"mprotects\":%llu,\"reuse_big\":%llu,\"reuse_small\":%llu,\"reuse_tiny\":%llu,\"fresh_big\":%llu,\"fresh_small\":%llu,\"stale\":%llu,\"rw_rx\":%llu,\"rwx_plain\":%llu,\"audits\":%llu,\"mprotect_refused\":%llu,\"preempt_armed\":%llu,\"preempt_fired\":%llu,\"preempt_steps\":%llu}",
 	         (unsigned long long)st.frees, (unsigned long long)st.munmaps, (unsigned long long)st.mprotects, (unsigned long long)st.reuse_big, (unsigned long long)st.reuse_small, (unsigned long long)st.reuse_tiny, (unsigned long long)st.fresh_big,
-	         (unsigned long long)st.fresh_small, (unsigned long long)st.stale, (unsigned long long)st.rw_rx_transitions, (unsigned long long)st.rwx_plain, (unsigned long long)st.maps_audits);
+	         (unsigned long long)st.fresh_small, (unsigned long long)st.stale, (unsigned long long)st.rw_rx_transitions, (unsigned long long)st.rwx_plain, (unsigned long long)st.maps_audits, (unsigned long long)st.mprotect_refused, (unsigned long long)st.preempt_armed, (unsigned long long)st.preempt_fired, (unsigned long long)st.preempt_steps);
 	s += b;
 	s += ",\"probes\":{";
 	bool first = true;
